@@ -44,6 +44,9 @@ func (c *FnCtx) doCallVals(p *Path, call *ssa.CallCommon, fnv Val, args []Val, p
 		recv := fnv
 		mname := call.Method.Name()
 		c.runGhostAt(p, "before:"+mname)
+		if recv.Origin != "" {
+			c.bumpCalls(p, recv.Origin)
+		}
 		c.checkNonNilIface(p, recv, "method call "+mname)
 		// statically known dynamic type → concrete method
 		if recv.Dyn != nil {
@@ -130,6 +133,13 @@ func (c *FnCtx) doCallVals(p *Path, call *ssa.CallCommon, fnv Val, args []Val, p
 				}
 				o.p.fnret[origin] = o.ret[0]
 			}
+			if !o.panic {
+				if len(o.ret) > 0 {
+					c.ghostRet = &o.ret[0]
+				}
+				c.runGhostAt(o.p, "after:"+origin)
+				c.ghostRet = nil
+			}
 		}
 		return outs
 	}
@@ -208,6 +218,7 @@ func (c *FnCtx) callFunction(p *Path, fn *ssa.Function, args []Val, binds []Val,
 	if helios {
 		fc := c.eng.contractOf(fn)
 		if fc != nil && !fc.Inline {
+			c.usedContracts[pkgShort(fn.Pkg.Pkg)+"."+relName(fn)] = len(fc.Props) > 0
 			outs := c.applyContract(p, fc, fn, append(append([]Val{}, args...), binds...), resT, relName(fn), pos)
 			for _, o := range outs {
 				if !o.panic {
